@@ -648,6 +648,10 @@ def analyse_lex_string(model: Model, quote: str, context: str = "bracket") -> Di
                 info["emits"] = t.attrs["type_"].member
                 val = t.attrs.get("value")
                 info["value_ok"] = isinstance(val, SymStr) and val.origin and val.origin[0] == "substr" and val.origin[1] is q
+                # the token's text is the query text strictly between the quotes: it ends where the closing quote stands
+                if not (info["value_ok"] and val.origin[3] == p.lin):
+                    end = val.origin[3].show(run.ctx.names) if info["value_ok"] else describe(val)
+                    probs.append(("lex:close-text", f"the string token's text ends at {end}, not at the closing quote: the literal's value would include the quote (an empty literal becomes a one-character name)"))
                 info["next_state"] = r.fi.name if isinstance(r, FuncV) else describe(r)
         elif cont:
             if adv != Lin.k(1):
